@@ -22,11 +22,17 @@ def trimRight (s : Str) : Str := (s.reverse.dropWhile isSpace).reverse
 /-- `strings.TrimSpace` -/
 def trimSpace (s : Str) : Str := trimRight (trimLeft s)
 
+/-- `strings.TrimRight(s, " ")`: what "trailing blanks trimmed" does to a line -/
+def trimRightSpaces (s : Str) : Str := (s.reverse.dropWhile (· == ' ')).reverse
+
 def isDigit (c : Char) : Bool := '0' ≤ c && c ≤ '9'
 
 def digitVal (c : Char) : Nat := c.toNat - '0'.toNat
 
-def digitChar (d : Nat) : Char := Char.ofNat ('0'.toNat + d % 10)
+def digitChar (d : Nat) : Char :=
+  match d % 10 with
+  | 0 => '0' | 1 => '1' | 2 => '2' | 3 => '3' | 4 => '4'
+  | 5 => '5' | 6 => '6' | 7 => '7' | 8 => '8' | _ => '9'
 
 /-- number of bytes of the UTF-8 encoding of a scalar value (`utf8.RuneLen`) -/
 def runeLen (c : Char) : Nat :=
@@ -43,7 +49,10 @@ def spaces (n : Nat) : Str := List.replicate n ' '
 def zeros (n : Nat) : Str := List.replicate n '0'
 
 /-- decimal digits of a natural number, most significant first (`strconv.Itoa` for n ≥ 0) -/
-def natDigits (n : Nat) : Str := (Nat.toDigits 10 n)
+def natDigits (n : Nat) : Str :=
+  if _h : n < 10 then [digitChar n] else natDigits (n / 10) ++ [digitChar (n % 10)]
+termination_by n
+decreasing_by omega
 
 /-- `strconv.Itoa` / `FormatInt(n, 10)` -/
 def itoa (n : Int) : Str :=
@@ -60,15 +69,18 @@ def minInt64 : Int := -9223372036854775808
 /-- `strconv.Atoi` on a 64-bit platform.  `none` = syntax error (Go returns 0
 with an error).  A range error returns the clamped value (Go returns it
 together with an error that `parseNumField` ignores). -/
-def atoi (s : Str) : Option Int :=
-  let (neg, ds) := match s with
-    | '-' :: r => (true, r)
-    | '+' :: r => (false, r)
-    | r => (false, r)
+def signSplit : Str → Bool × Str
+  | '-' :: r => (true, r)
+  | '+' :: r => (false, r)
+  | r => (false, r)
+
+def atoiCore (neg : Bool) (ds : Str) : Option Int :=
   if ds.isEmpty || !ds.all isDigit then none
   else
     let v : Int := digitsVal ds
     let v := if neg then -v else v
     some (if v > maxInt64 then maxInt64 else if v < minInt64 then minInt64 else v)
+
+def atoi (s : Str) : Option Int := atoiCore (signSplit s).1 (signSplit s).2
 
 end Ach
